@@ -42,6 +42,21 @@ def make_parser(cfg: dict | None = None, **kw) -> simple_parsing.ArgumentParser:
     )
 
 
+def decoy(cfg: dict | None = None) -> None:
+    """Construct (and drop) another ArgumentParser whose naming settings ALL differ from `cfg`'s. The class-level
+    FieldWrapper settings are last-writer-wins; a parser must spell and resolve its options with its own settings
+    whatever parsers were constructed after it (it re-asserts them in _preprocessing), so on correct code this is a no-op."""
+    cfg = cfg or {}
+    dash = cfg.get("dash", "UNDERSCORE")
+    dash = dash if dash in ALL_DASH else "UNDERSCORE"
+    other = {
+        "dash": ALL_DASH[(ALL_DASH.index(dash) + 1) % len(ALL_DASH)],
+        "gen": ALL_GEN[(ALL_GEN.index(cfg.get("gen", "FLAT")) + 1) % len(ALL_GEN)],
+        "nest": ALL_NEST[(ALL_NEST.index(cfg.get("nest", "DEFAULT")) + 1) % len(ALL_NEST)],
+    }
+    make_parser(other)
+
+
 class Captured:
     def __init__(self):
         self.out = ""
